@@ -1,5 +1,7 @@
 import PV.Model.Sexp
 import PV.Model.Dispatch
+import PV.Model.TravTable
+import PV.Model.Callback
 namespace PV.Driver
 open PV
 
@@ -16,7 +18,23 @@ def resToSexp : DispatchResult → Sexp
   | .foreign n => Sexp.mk "foreign" [Sexp.str n]
   | .invalidForeign => .atom "invalid-foreign"
 
+/-- `(c04fields e)`: the dataclass fields of the root node as the model reads them -/
+def c04FieldsToSexp (e : Expr) : Sexp :=
+  .list (e.c04Fields.map fun (n, v) =>
+    .list (Sexp.str n :: .atom v.kindName :: Expr.toSexpL v.exprs))
+
+def c04ErrToSexp : DepErr → Sexp
+  | .unsupported => Sexp.mk "err" [.atom "Unsupported"]
+  | .foreign => Sexp.mk "err" [.atom "Foreign"]
+  | .unhashable => Sexp.mk "err" [.atom "TypeError"]
+
 def handleDispatch : Sexp → Option Sexp
+  | .list [.atom "c04callback", .atom args, e] => do
+      let e ← Expr.ofSexp? e
+      match callbackTrace (args == "true") e with
+      | .ok xs => pure (.list (xs.map fun (n, a) => .list [n.toSexp, Sexp.ofBool a]))
+      | .error err => pure (c04ErrToSexp err)
+  | .list [.atom "c04fields", e] => (Expr.ofSexp? e).map c04FieldsToSexp
   | .list [.atom "camel", s] => do pure (Sexp.str (camelToSnake (← s.text)))
   | .list [.atom "dispatch", .atom variant, .list chain, .list handlers] => do
       -- chain: base-first list of class declarations below `Expression`
